@@ -1156,6 +1156,11 @@ class SSHProcess(SSHStreamSession, Generic[AnyStr]):
             old_reader.close()
 
         if reader:
+            if self._connection_lost:
+                # The channel closed while this redirection was being set up
+                reader.close()
+                return
+
             self._readers[datatype] = reader
             self._send_eof[datatype] = send_eof
 
